@@ -431,11 +431,9 @@ func ruleGEPVLEN(c *Ctx) []Obligation {
 			obs = append(obs, o)
 			continue
 		}
-		ast.Inspect(fd.Body, func(nd ast.Node) bool {
-			rs, ok := nd.(*ast.RangeStmt)
-			if !ok {
-				return true
-			}
+		var scanBody func(info *types.Info, list []ast.Stmt, depth int) bool
+		scanBody = func(info *types.Info, list []ast.Stmt, depth int) bool {
+			found := false
 			skipPos := token.NoPos
 			isVecTest := func(st ast.Stmt) bool {
 				is, ok := st.(*ast.IfStmt)
@@ -449,7 +447,7 @@ func ruleGEPVLEN(c *Ctx) []Obligation {
 				ta, ok := as.Rhs[0].(*ast.TypeAssertExpr)
 				return ok && ta.Type != nil && isNamed(info.TypeOf(ta.Type), pkgTYP, "VectorType")
 			}
-			for _, st := range rs.Body.List { // top level of the loop body only: every index form passes here
+			for _, st := range list { // top level of the loop body only: every index form passes here
 				is, ok := st.(*ast.IfStmt)
 				if !isVecTest(st) {
 					// a statement that can leave the iteration (continue / break / return) before the
@@ -506,6 +504,41 @@ func ruleGEPVLEN(c *Ctx) []Obligation {
 					o.Verdict, o.Pos = VIOL, c.pos(is.Pos())
 					o.Detail = "VectorLen is taken from the index type but its scalability is not"
 				}
+				if setsLen {
+					found = true
+				}
+			}
+			if found || depth > 0 {
+				return found
+			}
+			// the per-index step extracted into a helper of the module that returns the gep.Index
+			// (idxs = append(idxs, gepOperandIndex(index))): its body is the loop body
+			for _, st := range list {
+				ast.Inspect(st, func(m ast.Node) bool {
+					call, ok := m.(*ast.CallExpr)
+					if !ok || found {
+						return !found
+					}
+					f := calleeOf(info, call)
+					if f == nil || f.Pkg() == nil || !c.isLLVM(f.Pkg().Path()) || f.Pkg().Path() == pkgGEP {
+						return true
+					}
+					if sig := f.Type().(*types.Signature); sig.Results().Len() < 1 || !isNamed(sig.Results().At(0).Type(), pkgGEP, "Index") {
+						return true
+					}
+					if hfd := c.funcDecl(f); hfd != nil && hfd.Body != nil {
+						if scanBody(c.declPkg[hfd].TypesInfo, hfd.Body.List, depth+1) {
+							found = true
+						}
+					}
+					return true
+				})
+			}
+			return found
+		}
+		ast.Inspect(fd.Body, func(nd ast.Node) bool {
+			if rs, ok := nd.(*ast.RangeStmt); ok {
+				scanBody(info, rs.Body.List, 0)
 			}
 			return true
 		})
@@ -523,13 +556,29 @@ type indexClassifier struct {
 	deflt string
 }
 
-func (c *Ctx) classifyIndexCase(info *types.Info, body []ast.Stmt, depth int) string {
+func (c *Ctx) classifyIndexCase(info *types.Info, body []ast.Stmt, depth int, defs map[types.Object][]ast.Expr) string {
 	hasLoop := false
 	for _, st := range body {
 		ast.Inspect(st, func(n ast.Node) bool {
-			switch n.(type) {
+			switch x := n.(type) {
 			case *ast.RangeStmt, *ast.ForStmt:
 				hasLoop = true
+			case *ast.CallExpr:
+				// the walk over the elements extracted into a helper of the module
+				// (val, ok := uniformIntValue(index.Elems))
+				if f := calleeOf(info, x); f != nil && f.Pkg() != nil && c.isLLVM(f.Pkg().Path()) && f.Pkg().Path() != pkgGEP && depth < 2 {
+					if hfd := c.funcDecl(f); hfd != nil && hfd.Body != nil && len(x.Args) > 0 {
+						if _, isSlice := info.TypeOf(x.Args[0]).Underlying().(*types.Slice); isSlice {
+							ast.Inspect(hfd.Body, func(m ast.Node) bool {
+								switch m.(type) {
+								case *ast.RangeStmt, *ast.ForStmt:
+									hasLoop = true
+								}
+								return true
+							})
+						}
+					}
+				}
 			}
 			return true
 		})
@@ -548,13 +597,21 @@ func (c *Ctx) classifyIndexCase(info *types.Info, body []ast.Stmt, depth int) st
 			if !ok || len(r.Results) != 1 {
 				return true
 			}
+			// a result held in a local that is defined once (unknown := gep.Index{HasVal: false})
+			if id, ok := unparen(r.Results[0]).(*ast.Ident); ok && defs != nil {
+				if ds := defs[info.ObjectOf(id)]; len(ds) == 1 {
+					if _, isLit := unparen(ds[0]).(*ast.CompositeLit); isLit {
+						r = &ast.ReturnStmt{Return: r.Return, Results: []ast.Expr{ds[0]}}
+					}
+				}
+			}
 			s := strings.ReplaceAll(exprString(r.Results[0]), " ", "")
 			// the case delegates to a helper of the module (getVectorIndex(index.Elems)): the
 			// helper's own class
 			if call, ok := unparen(r.Results[0]).(*ast.CallExpr); ok && depth < 2 {
 				if callee := calleeOf(info, call); callee != nil && callee.Pkg() != nil && c.isLLVM(callee.Pkg().Path()) && callee.Pkg().Path() != pkgGEP {
 					if hfd := c.funcDecl(callee); hfd != nil && hfd.Body != nil {
-						hc := c.classifyIndexCase(c.declPkg[hfd].TypesInfo, hfd.Body.List, depth+1)
+						hc := c.classifyIndexCase(c.declPkg[hfd].TypesInfo, hfd.Body.List, depth+1, collectDefs(c.declPkg[hfd].TypesInfo, hfd.Body))
 						if class == "" || class == hc {
 							class = hc
 						} else {
@@ -611,6 +668,7 @@ func ruleGEPSIB(c *Ctx) []Obligation {
 				return
 			}
 			ic := &indexClassifier{fn: fn, fd: fd, cases: map[string]string{}}
+			defs := collectDefs(p.TypesInfo, fd.Body)
 			// outermost type switch at the top level of the body
 			for _, st := range fd.Body.List {
 				sw, ok := st.(*ast.TypeSwitchStmt)
@@ -619,7 +677,7 @@ func ruleGEPSIB(c *Ctx) []Obligation {
 				}
 				for _, cc := range sw.Body.List {
 					cl := cc.(*ast.CaseClause)
-					class := c.classifyIndexCase(p.TypesInfo, cl.Body, 0)
+					class := c.classifyIndexCase(p.TypesInfo, cl.Body, 0, defs)
 					if cl.List == nil {
 						ic.deflt = class
 						continue
@@ -628,6 +686,11 @@ func ruleGEPSIB(c *Ctx) []Obligation {
 						ic.cases[typeKey(p.TypesInfo.TypeOf(e))] = class
 					}
 				}
+			}
+			// a classifier dispatches on the form of the index; a function that merely wraps one
+			// (the per-operand step of a wrapper) is not a sibling
+			if len(ic.cases) < 2 {
+				return
 			}
 			cls = append(cls, ic)
 		})
